@@ -295,6 +295,45 @@ func TestDrv_C10(t *testing.T) {
 			}
 		}
 	}
+	// (G) every short history of the model's (timestamp, latency) grid, with every placement of intermediate Close calls
+	grid := 0
+	if p := os.Getenv("VERIF_CASES"); p != "" {
+		base := time.Unix(1600000000, 0)
+		must(readNDJSON(p, func(line []byte) error {
+			var c struct {
+				Adds []struct {
+					Ts  int64 `json:"ts"`
+					Lat int64 `json:"lat"`
+				} `json:"adds"`
+			}
+			if err := json.Unmarshal(line, &c); err != nil {
+				return err
+			}
+			for _, unit := range []time.Duration{time.Second, 1} {
+				for mask := 0; mask < 1<<len(c.Adds); mask++ {
+					cases++
+					grid++
+					tr.Emit("Reset", KV{"n": len(c.Adds), "perm": "grid", "mask": mask})
+					var m vegeta.Metrics
+					for i, a := range c.Adds {
+						res := vegeta.Result{Seq: uint64(i), Code: 200, Timestamp: base.Add(time.Duration(a.Ts) * unit), Latency: time.Duration(a.Lat) * unit}
+						m.Add(&res)
+						tr.Emit("Add", addEvent(&res))
+						adds++
+						if mask&(1<<i) != 0 {
+							m.Close()
+							tr.Emit("Close", closeEvent(&m, "fields"))
+							closes++
+						}
+					}
+					m.Close()
+					tr.Emit("Close", closeEvent(&m, "fields"))
+					closes++
+				}
+			}
+			return nil
+		}))
+	}
 	if len(cliOps) > 0 {
 		res, err := runMain(dir, cliOps)
 		if err != nil {
@@ -326,5 +365,5 @@ func TestDrv_C10(t *testing.T) {
 		}
 	}
 	writeJSON(filepath.Join(dir, "c10.summary.json"), KV{"multisets": multisets, "cases": cases, "adds": adds, "closes": closes,
-		"cli_reports": len(cliJobs), "samples": samples})
+		"cli_reports": len(cliJobs), "grid_cases": grid, "samples": samples})
 }
